@@ -422,6 +422,7 @@ type Query struct {
 	Asserts []Term   // hypotheses
 	Goal    Term     // to prove
 	Axioms  []string // raw global axiom commands (after declarations)
+	NoRetry bool     // no second attempt with a longer budget (obligations expected to fail)
 }
 
 type SolverResult struct {
@@ -431,6 +432,7 @@ type SolverResult struct {
 	Model   string
 	Raw     string
 	Sliced  bool
+	Retried bool // proved only in the second attempt with four times the budget
 }
 
 type solverDef struct {
@@ -754,6 +756,23 @@ func Discharge(q *Query, timeoutMs int, seed int) SolverResult {
 		cleanupQueryFiles(base)
 		return r
 	}
+	// stage 4: nobody answered within the budget (timeout / unknown). Wall-clock budgets are sensitive to machine load
+	// (other checks, test suites running beside this one): before an obligation is reported as failed it gets one more
+	// attempt with four times the budget, sliced first, then full. A refutation (sat) is never retried.
+	if r.Status != "sat" && !noRetry && !q.NoRetry {
+		r4 := try(true, false, 4*timeoutMs, solverDefs)
+		if r4.Status != "unsat" {
+			r4 = try(false, false, 4*timeoutMs, solverDefs)
+		}
+		if r4.Status == "unsat" {
+			r4.Retried = true
+			cleanupQueryFiles(base)
+			return r4
+		}
+		if r4.Status == "sat" {
+			r = r4
+		}
+	}
 	// failed: try to get a model from the full query
 	if r.Status != "sat" {
 		// nobody refuted it: no model to be had (quantified / recursive obligations answer unknown)
@@ -784,6 +803,9 @@ func cleanupQueryFiles(base string) {
 }
 
 var keepSMT = false
+
+// noRetry disables stage 4 of Discharge (debugging)
+var noRetry = false
 
 // parseModel extracts (define-fun name () Sort value) entries with simple values.
 func parseModel(raw string) map[string]string {
